@@ -316,7 +316,7 @@ def rng_slots(mab):
     for name, lp in lps_of(mab):
         if lp is not mab._imp:
             slots.append((name + ".rng", lp, "rng"))
-        if isinstance(lp, _Linear):
+        if isinstance(lp, _Linear) and lp.regression == "ts":     # only LinTS ever draws through its arm models
             for arm in lp.arms:
                 if arm in lp.arm_to_model:
                     slots.append(("%s.model[%r].rng" % (name, arm), lp.arm_to_model[arm], "rng"))
